@@ -96,10 +96,24 @@ fn calls_token(calls: &[String]) -> String {
 
 pub fn observe(name: &str, pre: &str, suf: &str, mode: &Mode) -> String {
     let (cls, res, calls) = run(name, pre, suf, mode);
-    match res {
+    let mut s = match res {
         Some(r) => format!("{} {} {}", cls, hexs(&r), calls_token(&calls)),
         None => format!("{} {}", cls, calls_token(&calls)),
+    };
+    if name.contains('Σ') {
+        // capital sigma: `str::to_lowercase` is context sensitive (final sigma), so the driver cannot lower-case
+        // with a per-character table.  `T:` = the TRUE whole-string lower-casing of every candidate that was
+        // offered, computed here and independently of what the function passed to the closure: candidate j is
+        // what the function returns when exactly call j is accepted.
+        let mut t = Vec::new();
+        for j in 0..calls.len().min(100) {
+            if let (_, Some(c), _) = run(name, pre, suf, &Mode::Kth(j)) {
+                t.push(hexs(&c.to_lowercase()));
+            }
+        }
+        s.push_str(&format!(" T:{}", t.join(",")));
     }
+    s
 }
 
 fn input_tokens(name: &str, pre: &str, suf: &str, mode: &Mode) -> String {
